@@ -15,7 +15,7 @@ import types
 
 import z3
 
-from .values import (Internal, SBool, SEnum, SInt, SReal, Sym, SymBytes, SymBytesFn, SymCArray,
+from .values import (Internal, SBool, SEnum, SInt, SReal, Sym, SymBytes, SymBytesFn, SymCArray, SymStructArray,
                      SymEscape, SymStruct, Unsupported, has_sym, lift, lift_int, lift_real,
                      mk_bool, mk_int)
 
@@ -1140,6 +1140,8 @@ def _isinstance(it, o, c):
         return issubclass(o.cls, c)
     if isinstance(o, SymStruct):
         return issubclass(o.S, c)
+    if isinstance(o, SymStructArray):
+        return issubclass(o.t, c)
     if isinstance(o, (SymBytes, SymBytesFn)):
         return c in (bytes, object)
     if isinstance(o, SegStr):
@@ -1169,6 +1171,8 @@ def _len(it, o):
         return mk_int(o.n)
     if isinstance(o, SymCArray):
         return len(o.vals)
+    if isinstance(o, SymStructArray):
+        return len(o.elems)
     if isinstance(o, SegStr):
         from . import segstr
         return segstr.length(it, o)
@@ -1240,7 +1244,7 @@ def _str(it, *a):
 def _bytes(it, *a):
     if len(a) == 1:
         v = a[0]
-        if isinstance(v, SymStruct):
+        if isinstance(v, (SymStruct, SymStructArray)):
             return v.to_bytes()
         if isinstance(v, (SymBytes, SymBytesFn)):
             return v
@@ -1477,6 +1481,13 @@ def _from_buffer_copy(it, fb, raw, *off):
             return SymStruct.from_bytes(fb.S, raw)
         except ValueError as e:
             raise _PyExc(e)
+    if issubclass(fb.S, ctypes.Array):
+        if not issubclass(fb.S._type_, ctypes.Structure):
+            raise Unsupported("from_buffer_copy of scalar array")
+        try:
+            return SymStructArray.from_bytes(fb.S, raw)
+        except ValueError as e:
+            raise _PyExc(e)
     # simple ctypes scalar, e.g. c_uint8.from_buffer_copy(raw[:1]).value
     n = ctypes.sizeof(fb.S)
     if len(raw) < n:
@@ -1550,6 +1561,8 @@ def iterate(it, v):
         return iter(v.bs)
     if isinstance(v, SymCArray):
         return iter(v.vals)
+    if isinstance(v, SymStructArray):
+        return iter(v.elems)
     if isinstance(v, (SymMap, SymList, SymFamily, SymRange, SymBytesFn, SymSet)):
         raise Unsupported(f"iteration over {type(v).__name__} (needs a loop contract)")
     if isinstance(v, SegStr):
